@@ -50,6 +50,14 @@ def skeletons():
     add('let f = func (x) => func (y) => x - y; let g = f(%s); let x = 100; let r = g(%s);' % (P(1), P(2)), 2)
     add('let l = map(func (x) => x + 1, [%s]); let q = x;' % P(1), 1)
     add('let acc = %s; let l = reduce(func (acc, x) => acc + x, 0, [%s]); let r = acc;' % (P(1), P(2)), 2)
+    # parameters that carry the name of a built-in binding (env, item) are ordinary parameters
+    add('let f = func (env) => env.FOO + 1; let r = f({FOO = %s});' % P(1), 1)
+    add('let f = func (env) => env + 1; let r = f(%s);' % P(1), 1)
+    add('let f = func (env) => func (y) => env - y; let g = f(%s); let r = g(%s);' % (P(1), P(2)), 2)
+    add('let r = map(func (env) => env + 1, [%s]);' % P(1), 1)
+    add('let m = module {x = 1} => { let f = func (env) => env + mod.x; let y = f(%s); }; let r = m{}.y;' % P(1), 1)
+    add('let f = func (item) => item + 1; let r = f(%s);' % P(1), 1)
+    add('let f = func (item) => "v" %% (item); let item = %s; let r = f(%s); let q = item;' % (P(1), P(2)), 2)
     return ps
 
 
